@@ -350,6 +350,26 @@ func TestVerif_C39_Hs(t *testing.T) {
 			tr.Sample("hs remote=" + remTok)
 		}
 	}
+	// (b') every byte value at the first, middle and last position of the peer id, info hash, name and a remote
+	// peer id of an otherwise valid message
+	{
+		pid, ih, name, rp := c39Hex(r, 20, false), c39Hex(r, 20, true), c39Hex(r, 32, false), c39Hex(r, 20, false)
+		g, _ := c39BitSpec("70:1.69")
+		gb, _ := g.MarshalBinary()
+		for field := 0; field < 4; field++ {
+			src := []string{pid, ih, name, rp}[field]
+			for _, i := range []int{0, len(src) / 2, len(src) - 1} {
+				for b := 0; b < 256; b++ {
+					m := src[:i] + string([]byte{byte(b)}) + src[i+1:]
+					f := []string{pid, ih, name, rp}
+					f[field] = m
+					run("hsde", "pid="+c39Esc(f[0]), "ih="+c39Esc(f[1]), "name="+c39Esc(f[2]), "bf="+verifh.Hex(gb),
+						"remote="+c39Esc(f[3])+":"+hex.EncodeToString(gb), "ns=%")
+					tr.Count("hsde_byte_subst", 1)
+				}
+			}
+		}
+	}
 	// (c) malformed / arbitrary bitfield messages
 	for i := 0; i < verifh.Scale(1500, 100000); i++ {
 		pid := c39Hex(r, 20, r.Chance(1, 4))
